@@ -129,6 +129,11 @@ def body(ctx, p):
         d = tempfile.mkdtemp()
         try:
             pth = os.path.join(d, 'm.cml')
+            # the path held another document before (and that one was loaded): what counts is the file's content at load time
+            decoy = render([dict(id='q1', elementType='Xe', x3='1.0', y3='2.0', z3='3.0')] + atoms[::-1], [])
+            open(pth, 'w').write(decoy)
+            a0 = Atoms.load(pth)
+            ctx.require('decoy document loads', len(a0) == n + 1)
             open(pth, 'w').write(text)
             a2 = Atoms.load(pth)
             with open(pth) as fh:
